@@ -342,6 +342,10 @@ def c15(r):
                          '%d expression texts, 16 value kinds, 2 contexts (original + clone), 3/2/2/2 value/pointer/executable/expression handles' % (num, ln, 78, 59, 21))
     lenv = {'VDRIVE_LEAKCHECK': '1', 'ASAN_OPTIONS': 'detect_leaks=1:abort_on_error=0:halt_on_error=1:allocator_may_return_null=1:fast_unwind_on_malloc=0'}
     r.conform(scs, trace_module='Trace_C15', trace_cfg='Trace_C15.cfg', workers=16, batch=1, env=lenv)
+    # deterministic part: every text of the pools compiled twice in a context with stored variables, run / evaluated, released
+    scs0 = r.gen('Gen_C15', 'Gen_C15_all.cfg', workers=4, timeout=3000)
+    r.extra['bounds'] += '; every program text and every expression of the pools once (compiled twice, run / evaluated, released)'
+    r.conform(scs0, trace_module='Trace_C15', trace_cfg='Trace_C15.cfg', workers=16, batch=1, env=lenv)
     if not r.quick:
         # exhaustive: every sequence of 2 calls after each of the 8 seeds
         scs2 = r.gen('Gen_C15', 'Gen_C15_bfs.cfg', env={'BFS_LEN': '2'}, workers=16, timeout=3000)
